@@ -51,6 +51,16 @@ def run(ctx, model_ok):
                             "round trip (modelled as tiling the rotations; octahedral rotations only in the stream); the field function is taken to be row-wise "
                             "(dict_interface_is_level1_rowwise is about a row-wise F; row independence of the real field functions is C05/C06); for the unpatched "
                             "classes only accept / reject / output shape are compared on valid-rank inputs (values: cross-interface oracle, floats)",
+                            "carrier (AUDIT X1): the driver evaluates Model/Level2, Model/Iface and Model/DictIface at integer matrices (`M3 Int`, inverse = transpose, "
+                            "not a group). Only dataframe_index_order, dataframe_order and position_pixels_are_the_positions are stated over an abstract Mathlib `Group G`; "
+                            "they are PROVED for the `M3 Int` evaluation under the decidable hypothesis that all rotation matrices of the input are octahedral "
+                            "(`*_on_driver_carrier`, via Lemmas/OctaCarrier.lean + Lemmas/OctaIface.lean: `Group Oct`, naturality of every interface function in the "
+                            "inclusion `Oct -> M3 Int`); all other C07 theorems use bare operation classes and hold at `M3 Int` verbatim; "
+                            "interface_on_driver_carrier_is_group_model / dict_interface_is_level1_rowwise_on_driver_carrier: on octahedral data the driver's getBtop, "
+                            "src/sens/coll method forms and getBH_dict_level2 ARE the same models evaluated at the group `Oct`. STILL ASSUMED: scipy `Rotation` on the 24 "
+                            "octahedral rotations composes / inverts / applies / compares like these integer matrices (validated exactly by the level2, iface and dict "
+                            "streams on sampled inputs, scipy results snapped to the grid); for general rotations scipy is a group action only up to rounding "
+                            "(cross-interface float oracle); non-octahedral integer matrices are outside the group-dependent statements",
                             "method_wrappers_agree: the first two conjuncts hold by definition of the model (srcMethod / sensMethod are defined as the top-level call); "
                             "their content is the iface stream comparing the model with src.getB / sens.getB / coll.getB"]
     ctx.assumptions += ["np.tile / np.squeeze / np.array semantics in getBH_dict_level2 as modelled by DictIface.Arr (exercised by the dict stream)"]
